@@ -13,6 +13,7 @@ import shutil
 
 import vlib
 from props import c10_gen as G
+from props import c10_fragment as F
 
 HARNESS_BINS = ["vh_c10"]
 NEEDS_FRUGAL = True
@@ -371,6 +372,65 @@ def shrink_failure(ctx, model, rounds=8):
 
 # ---- main ------------------------------------------------------------------------------------------
 
+def run_fragment(ctx, rng, n):
+    """The PROVED fragment (theorem c10_roundtrip_structs_partial): generated descriptions of files inside it,
+    rendered, parsed by the real parser; direct oracle = the declared model; the judge JParserFragment checks
+    inside Coq that each description satisfies the theorem's hypotheses, that the theorem's rendering is the
+    parsed text, and that the implementation returned the theorem's tree."""
+    descs, feats = [], {}
+    for i in range(n):
+        g = F.FragGen(rng, size=1.0 if i % 5 else 2.0)
+        d = g.file()
+        descs.append((d, F.render(d)))
+        for f in g.features:
+            feats[f] = feats.get(f, 0) + 1
+    resps = run_harness([{"op": "parse", "text": t.hex()} for _, t in descs])
+    if len(resps) != len(descs):
+        raise RuntimeError("harness answered %d of %d fragment requests" % (len(resps), len(descs)))
+    failed = set()
+    for i, ((d, t), r) in enumerate(zip(descs, resps)):
+        why = oracle_parse({"kind": "valid", "canon": G.canon(F.to_model(d))}, r)
+        if why:
+            failed.add(i)
+            ctx.violation("C10 oracle (proved fragment): " + why,
+                          {"idl_text": t.decode("utf8", "backslashreplace"), "text_hex": t.hex(),
+                           "observed": {k: r.get(k) for k in ("code", "msg")},
+                           "theorem": "c10_roundtrip_structs_partial"})
+    jcases = [[t, d["w0"], F.to_tok(d), r.get("code", 103), G.from_json(r["ast"]) if r.get("code") == 0 else []]
+              for (d, t), r in zip(descs, resps)]
+    verdicts = vlib.run_judge(ctx.rundir, "JParserFragment", "judge", jcases, shard=400000, name="jf")
+    why_v = {-1: "the implementation's tree is not the tree the theorem gives for this text",
+             -2: "fragment description does not decode (generator / judge out of step)",
+             -3: "generated description is outside the hypotheses of the theorem (generator fault)",
+             -4: "the generator's text is not the theorem's rendering of the description (generator fault)"}
+    for i, v in enumerate(verdicts):
+        if v < 0 and not (v == -1 and i in failed):
+            d, t = descs[i]
+            ctx.violation("C10 proved fragment: " + why_v.get(v, "judge verdict %d" % v),
+                          {"idl_text": t.decode("utf8", "backslashreplace"), "text_hex": t.hex(),
+                           "observed": {k: resps[i].get(k) for k in ("code", "msg")},
+                           "no_failing_input_found": v != -1,
+                           "broken": "Judge/JParserFragment.v (c10_roundtrip_structs_partial / c10_fragment_check_sound)"})
+    tags = {}
+    for v in verdicts:
+        tags[v] = tags.get(v, 0) + 1
+    return {
+        "theorem": "c10_roundtrip_structs_partial (with c10_fragment_check_sound: the judge's check implies its hypotheses)",
+        "declaration_kinds_inside": F.KINDS_INSIDE,
+        "render_styles_inside": F.STYLES_INSIDE,
+        "outside": F.OUTSIDE,
+        "cases": len(descs),
+        "instances_accepted_by_judge": len([v for v in verdicts if v >= 0]),
+        "judge_rejections": len([v for v in verdicts if v < 0]),
+        "oracle_failures": len(failed),
+        "kind_sets_seen": {str(k - 5000): c for k, c in sorted(tags.items()) if k >= 5000},
+        "kind_set_legend": "bit set: 1 typedef, 2 enum, 4 struct/exception/union, 8 const",
+        "render_styles_exercised": dict(sorted(feats.items())),
+        "bytes": sum(len(t) for _, t in descs),
+        "sample": [trunc(t, 300) for _, t in descs[:2]],
+    }
+
+
 def run(ctx, br):
     rng = ctx.rng
     quick = ctx.tier == "quick"
@@ -495,6 +555,8 @@ def run(ctx, br):
         rep["broken"] = "correspondence JParser.judge (Model/Parser.v disagrees with the real parser on this text)"
         ctx.violation("C10 correspondence: model and implementation disagree", rep)
 
+    frag = run_fragment(ctx, rng, 60 if quick else 900)
+
     feats = {}
     for c in cases:
         for f in c["features"]:
@@ -517,14 +579,15 @@ def run(ctx, br):
         "line/column of parser errors are not modelled (offset, rule and message class are)",
     ]
     return {
-        "evaluations": len(cases) + len(progs),
+        "evaluations": len(cases) + len(progs) + frag["cases"],
         "distinct_nontrivial": distinct,
         "rule": "seeded IDL models (all declaration kinds, annotations in every position, doc comments, containers, "
                 "constants incl. lists/maps/identifier references/doubles, includes across 1-4 files) rendered in random "
                 "lexical styles; hazard cases (one Thrift-valid construct the grammar mishandles each); mutated texts. "
                 "non-trivial = accepted well-formed text with >= 1 declaration; distinct by text",
-        "traces_validated_against_impl": len([v for v in verdicts if v >= 0]),
-        "judge_mismatches": len(mism) + len([v for v in pverdicts if v < 0]),
+        "traces_validated_against_impl": len([v for v in verdicts if v >= 0]) + frag["instances_accepted_by_judge"],
+        "proved_fragment": frag,
+        "judge_mismatches": len(mism) + len([v for v in pverdicts if v < 0]) + frag["judge_rejections"],
         "programs_validated_against_impl": len([v for v in pverdicts if v >= 0]),
         "program_branch_tags": {str(k): pverdicts.count(k) for k in sorted(set(pverdicts))},
         "oracle_failures": oracle_fail,
